@@ -1,9 +1,12 @@
 pub mod alias;
 pub mod fault;
+pub mod hist;
 pub mod tree;
 pub mod wt;
 
 use crate::runner::Engine;
+
+pub const ALL_PROPS: &[&str] = &["C01", "C02", "C03", "C05", "C06", "C07", "C08", "C09", "C10", "C11", "C12", "C13", "C14", "C15"];
 
 pub fn engine_for(property: &str) -> Option<Box<dyn Engine>> {
     match property {
@@ -12,6 +15,8 @@ pub fn engine_for(property: &str) -> Option<Box<dyn Engine>> {
         "C08" => Some(Box::new(alias::AliasEngine)),
         "C09" => Some(Box::new(tree::TreeEngine::new("C09"))),
         "C10" => Some(Box::new(tree::TreeEngine::new("C10"))),
+        "C14" => Some(Box::new(hist::HistEngine::purity())),
+        "C15" => Some(Box::new(hist::HistEngine::serde())),
         _ => None,
     }
 }
